@@ -208,6 +208,12 @@ func worker(args []string) int {
 	}
 	for _, s := range sites {
 		for _, f := range cfg.Forms {
+			// StoreRepository.Update undoes its own partial writes before it returns an error (that is
+			// its contract); "the write happened but the caller is told it failed" cannot come out of the
+			// real implementation, so that form would misrepresent the code at this site.
+			if f == "fail-after" && s.label == "sr.Update" {
+				continue
+			}
 			if f == "refuse" && !(strings.HasPrefix(s.label, "l2.Lock") || strings.HasPrefix(s.label, "l2.DualLock") || strings.HasPrefix(s.label, "l2.IsLocked")) {
 				continue
 			}
